@@ -10,6 +10,7 @@ var registry = map[string]func() core.Property{
 	"C08": NewC08,
 	"C09": NewC09,
 	"C13": NewC13,
+	"C14": NewC14,
 	"C10": NewC10,
 	"C11": NewC11,
 	"C12": NewC12,
